@@ -14,7 +14,9 @@ EXTENDS Integers, Sequences, FiniteSets, TLC, Json
 
 CONSTANTS Alphabet,   \* sequence of fragments (strings)
           Core,       \* subset of DOMAIN Alphabet used up to MaxCore
+          Mid,        \* subset of DOMAIN Alphabet (containing Core) used up to MaxMid
           MaxAll,     \* every fragment: documents up to this length
+          MaxMid,     \* mid fragments: documents up to this length
           MaxCore,    \* core fragments: documents up to this length
           Wrappers,   \* sequence of <<prefix, suffix>> put around the document (inline contexts)
           MaxWrap,    \* nesting bound of wrappers
@@ -28,10 +30,12 @@ WrapSeqs == UNION {[1..k -> DOMAIN Wrappers] : k \in 0..MaxWrap}
 Init == doc = <<>> /\ wraps \in WrapSeqs
 
 AllCore(d) == \A k \in DOMAIN d : d[k] \in Core
+AllMid(d)  == \A k \in DOMAIN d : d[k] \in Mid
 
 Extend(i) ==
     /\ \/ Len(doc) < (IF Len(wraps) >= 2 THEN MaxDeep ELSE MaxAll)
        \/ Len(wraps) < 2 /\ Len(doc) < MaxCore /\ AllCore(doc) /\ i \in Core
+       \/ Len(wraps) < 2 /\ Len(doc) < MaxMid /\ AllMid(doc) /\ i \in Mid
     /\ doc' = Append(doc, i)
     /\ UNCHANGED wraps
 
@@ -39,7 +43,7 @@ Next == PrintT(ToJson([w |-> wraps, d |-> doc])) /\ \E i \in DOMAIN Alphabet : E
 Spec == Init /\ [][Next]_<<doc, wraps>>
 
 (* generator sanity: every exported document is within the stated bounds *)
-Bounded == Len(doc) <= MaxCore \/ Len(doc) <= MaxAll
+Bounded == Len(doc) <= MaxCore \/ Len(doc) <= MaxAll \/ Len(doc) <= MaxMid
 WrapsOK == Len(wraps) <= MaxWrap
-Shape   == Len(doc) > MaxAll => AllCore(doc)
+Shape   == Len(doc) > MaxAll => (AllCore(doc) \/ AllMid(doc))
 =============================================================================
